@@ -44,6 +44,7 @@ from workflows.workflow import Workflow
 
 from .._store.abstract_workflow_store import (
     AbstractWorkflowStore,
+    HandlerQuery,
     PersistentHandler,
     Status,
 )
@@ -175,6 +176,7 @@ class ServerRuntimeDecorator(BaseRuntimeDecorator):
         self._persistence_backoff = (
             list(persistence_backoff) if persistence_backoff is not None else [0.5, 3]
         )
+        self._run_watchers: set[asyncio.Task[None]] = set()
 
     async def _retry_store_write(self, coro_fn: Callable[[], Awaitable[None]]) -> None:
         """Wrap a store write with retry/backoff."""
@@ -252,7 +254,7 @@ class ServerRuntimeDecorator(BaseRuntimeDecorator):
             store_type = serialized_state.get("store_type")
             if store_type is not None and store_type != "in_memory":
                 passthrough_state = None
-        return super().run_workflow(
+        adapter = super().run_workflow(
             run_id,
             workflow,
             init_state,
@@ -260,6 +262,38 @@ class ServerRuntimeDecorator(BaseRuntimeDecorator):
             serialized_state=passthrough_state,
             serializer=serializer,
         )
+        watcher = asyncio.create_task(self._mark_failed_on_error(run_id, adapter))
+        self._run_watchers.add(watcher)
+        watcher.add_done_callback(self._run_watchers.discard)
+        return adapter
+
+    async def _mark_failed_on_error(
+        self, run_id: str, adapter: ExternalRunAdapter
+    ) -> None:
+        """Mark the handler failed if its run ends with an exception but no terminal event.
+
+        Status updates are driven by terminal stream events. A run that raises
+        without having published one (an error inside the control loop, a store
+        write that kept failing) would otherwise leave its handler "running".
+        """
+        try:
+            await adapter.get_result()
+            return
+        except asyncio.CancelledError:
+            # Aborted (idle release, shutdown): the run may be resumed later.
+            return
+        except Exception as e:
+            error = str(e) or type(e).__name__
+        try:
+            found = await self._store.query(HandlerQuery(run_id_in=[run_id]))
+            if found and found[0].status == "running":
+                await self._handle_status_update(
+                    run_id=run_id, status="failed", error=error
+                )
+        except Exception:
+            logger.exception(
+                "Failed to mark handler failed after run %s raised", run_id
+            )
 
     def get_internal_adapter(self, workflow: Workflow) -> InternalRunAdapter:
         """Wraps the inner runtime's adapter in _ServerInternalRunAdapter."""
